@@ -211,6 +211,10 @@ class HookScript(object):
             out = self.outcomes.get((wname, hname), "true")
             if isinstance(out, list):
                 out = out.pop(0) if len(out) > 1 else out[0]
+            slow = isinstance(out, str) and out.endswith("+slow")
+            if slow:
+                out = out[:-5]
+                self.sim.loop.vnow += 0.04          # user code that takes its time (40 ms)
             self.sim.rec("hook", w=wname, x=hname, r=out, p=kw.get("pid") or kw.get("process_pid") or 0)
             if out == "raise":
                 raise RuntimeError("hook %s scripted to raise" % hname)
@@ -306,7 +310,7 @@ class Sim(object):
                         "resp": bool(s["respawn"]), "auto": bool(s["autostart"]), "prio": s["priority"],
                         "ssig": s["stop_signal"], "sch": bool(s["stop_children"]),
                         "mage": s["max_age"], "hup": bool(s["send_hup"]), "od": bool(s["on_demand"]),
-                        "hooks": [{"h": h, "o": v[0] if isinstance(v[0], str) else "seq",
+                        "hooks": [{"h": h, "o": (v[0][:-5] if v[0].endswith("+slow") else v[0]) if isinstance(v[0], str) else "seq",
                                    "ig": bool(v[1])}
                                   for h, v in sorted((s.get("hooks") or {}).items())]}
                        for s in self.wspecs]}
